@@ -230,8 +230,9 @@ class ZMQEventLoop(EventLoop):
         return True
 
     def _entering_idle(self) -> None:
-        for callback in list(self._idle_callbacks.values()):
-            callback()
+        for handle, callback in list(self._idle_callbacks.items()):
+            if handle in self._idle_callbacks:  # not removed by a previous idle callback
+                callback()
 
     def run(self) -> None:
         """
